@@ -348,7 +348,7 @@ pub fn c12_relations_n3() {
     relations::<3>();
 }
 
-// @verif prop=C12 tier=quick fl=f1 feat=map4 role=relations/adjacency-map t=1500 mem=24
+// @verif prop=C12 tier=thorough fl=f1 feat=map4 role=relations/adjacency-map t=3600 mem=30
 #[cfg_attr(kani, kani::proof)]
 #[cfg_attr(kani, kani::unwind(10))]
 pub fn c12_relations_map() {
